@@ -79,7 +79,7 @@ impl Parser for MarkdownParser {
         );
 
         let languages: &[&str] = &self.languages.iter().map(|s| s as &str).collect::<Vec<_>>();
-        let iterator = MarkdownIterator::new(languages, text.lines());
+        let iterator = MarkdownIterator::new(languages, document_lines(text));
         let mut line_parser = LineParser::new(self.expectation_maker.clone(), false);
         let mut title_paragraph = vec![];
         let mut config = DocumentConfig::default_markdown();
@@ -151,6 +151,13 @@ impl Parser for MarkdownParser {
 
         Ok((config, line_parser.testcases.clone()))
     }
+}
+
+/// The lines of a Markdown document. A carriage return that ends the document
+/// is the remainder of a CRLF line ending: [`str::lines`] drops it from every
+/// line but the last one, where it would otherwise become part of the line
+pub(crate) fn document_lines(text: &str) -> std::str::Lines<'_> {
+    text.strip_suffix('\r').unwrap_or(text).lines()
 }
 
 /// An element of a Markdown document that we care about knowing
